@@ -104,6 +104,7 @@ def execute(record: dict, rng: Optional[random.Random]) -> Outcome:
         v = exc_to_violation(PROP, "O6.6", e, extra={"layer": "B"})
     finally:
         if kernel is not None:
+            ch.count("preemption", kernel.switches)  # context switches between worker threads actually taken
             kernel.shutdown()
             activate(None)
     if v is None:
